@@ -64,7 +64,7 @@ class Config:
     branch_timeout_ms = 5000
     oblig_timeout_ms = 60000
     first_try_ms = 6000  # budget of the cheap first attempts in State._decide
-    cover_timeout_ms = None  # budget of one reachability (vacuity) check; None: oblig_timeout_ms.  An `unknown` answer leaves the
+    cover_timeout_ms = 15000  # budget of one reachability (vacuity) check; None: oblig_timeout_ms.  An `unknown` answer leaves the
     # point "uncovered" unless another path covers it, so a contract whose paths carry quantifiers may shorten it (sound)
     max_paths = 20000
     use_cvc5 = True
